@@ -26,6 +26,9 @@ def k_quat_hermitian(I, args, kwargs):
     (A,) = args
     if isinstance(A, HMat):
         return HMat(A.p.star)
+    from . import idx as ix
+    if isinstance(A, ix.IArr):
+        return A.conj().transpose()
     from .props.c01 import comps_of, is_sparse_obj, mk_sparse_from
     c = spec.herm_sym(comps_of(A))
     if is_sparse_obj(A):
